@@ -904,7 +904,7 @@ let () =
             else if starts_with res "err" then fail i "C03" "corr" ("harness error: " ^ l)
             else (
               (* "no dead node after gc" can only be asserted if the snapshot directly follows the gc *)
-              (match toks with [ "SNAP" ] | [ "GC" ] -> () | _ -> gc_pending := false; dropall_gc := !dropall_gc && false);
+              (match toks with [ "SNAP" ] | [ "GC" ] | [ "GCR" ] -> () | _ -> gc_pending := false; dropall_gc := !dropall_gc && false);
               (match toks with [ "SNAP" ] | "VARS" :: _ | "LEVELDOWN" :: _ | "ORDER" :: _ | "ORDERSEQ" :: _ -> () | _ -> since := "other" :: !since);
               match toks with
               | [ "SNAP" ] -> (try process_snapshot i res with Failure m -> fail i "C03" "corr" ("driver: " ^ m))
@@ -946,7 +946,7 @@ let () =
               | "VARS" :: k :: _ -> nvars := !nvars + int_of_string k; since := ("VARS " ^ k) :: !since
               | [ "DROP"; a ] | [ "DROPT"; a ] -> invalidate (slot_of a)
               | [ "DROPALL" ] -> Hashtbl.reset tts; Hashtbl.reset fams; dropall_gc := true
-              | [ "GC" ] -> gc_pending := true
+              | [ "GC" ] | [ "GCR" ] -> gc_pending := true      (* GCR: a collection from inside a reorder() closure *)
               | [ "SESSION"; _ ] -> ()
               | "EXPORT" :: _ -> ()      (* no handle changes; the reference counts are audited on the next snapshot *)
               | [ "TFILL" ] ->
